@@ -251,6 +251,43 @@ def render_driver(facts):
     return "\n".join(out) + "\n"
 
 
+def scrape_conc():
+    """ConcFacts.v: the concurrency-relevant facts of tests/src/object/wrapper.rs and of the
+    Rust skeleton emitter (idlc_codegen_rust/src/interface/functions/invoke.rs)."""
+    facts, problems = {}, []
+    w = re.sub(r"//.*", "", read("tests/src/object/wrapper.rs"))
+    ret = fn_body(w, r"pub unsafe fn retain<[^>]*>\(wrapper: \*mut Wrapper<T>\) -> i32 \{")
+    rel = fn_body(w, r"pub unsafe fn release<[^>]*>\(wrapper: \*mut Wrapper<T>\) -> i32 \{")
+    if ret is None or rel is None:
+        problems.append("wrapper.rs: retain/release not found")
+        return facts, problems
+    refs_ops = lambda body: re.findall(r"refs\s*\.\s*(\w+)\(", body)
+    facts["retain_is_rmw"] = refs_ops(ret) == ["fetch_add"] and bool(re.search(r"fetch_add\(\s*1\s*,", ret))
+    facts["release_is_rmw"] = refs_ops(rel) == ["fetch_sub"] and bool(re.search(r"fetch_sub\(\s*1\s*,", rel))
+    m = re.search(r"(\d+)\s*=>\s*(?:std::mem::)?drop\(Box::from_raw\(wrapper\)\)", rel)
+    if m and len(re.findall(r"Box::from_raw", rel)) == 1:
+        facts["release_frees_on"] = int(m.group(1))
+    else:
+        problems.append("wrapper.rs: cannot find the value on which release frees")
+    facts["refs_starts_at"] = 1 if re.search(r"refs:\s*AtomicUsize::new\(1\)", w) else 0
+    facts["inner_is_mutex"] = bool(re.search(r"pub inner:\s*Mutex<Box<T>>", w))
+    inv = read("idlc_codegen_rust/src/interface/functions/invoke.rs")
+    tm = re.search(r"match \(\*\{CONTEXT\}\)\.inner\.lock\(\)(.*?)\.and_then\(\|mut cx\| cx\.r#\{ident\}\(\{params\}\)\)", inv, re.S)
+    facts["arm_locks_before_call"] = bool(tm)
+    facts["arm_holds_lock_during_call"] = bool(tm)     # the call is made through the guard inside the closure
+    return facts, problems
+
+
+def render_conc(facts):
+    out = ["(* GENERATED by lib/translate.py from tests/src/object/wrapper.rs and the Rust skeleton emitter. *)",
+           "Require Import Base.", ""]
+    for k in ("retain_is_rmw", "release_is_rmw", "inner_is_mutex", "arm_locks_before_call", "arm_holds_lock_during_call"):
+        out.append("Definition %s : bool := %s." % (k, "true" if facts.get(k) else "false"))
+    out.append("Definition release_frees_on : nat := %d." % facts.get("release_frees_on", 0))
+    out.append("Definition refs_starts_at : nat := %d." % facts.get("refs_starts_at", 0))
+    return "\n".join(out) + "\n"
+
+
 def ptable(name, tbl):
     arms = " ".join("| %s => %d" % (COQP[p], tbl[p]) for p in PRIMS)
     return "Definition %s (p : prim) : N := match p with %s end.\n" % (name, arms)
@@ -296,6 +333,11 @@ def main(outdir, probe=None):
     F.items["driver"] = df
     if not dproblems:
         write_if_changed(os.path.join(outdir, "DriverFacts.v"), render_driver(df))
+    cf, cproblems = scrape_conc()
+    F.problems += cproblems
+    F.items["conc"] = cf
+    if not cproblems:
+        write_if_changed(os.path.join(outdir, "ConcFacts.v"), render_conc(cf))
     return F, changed
 
 
